@@ -583,6 +583,11 @@ def run(c):
         c.corr_break("enum REB_STATUS: extracted %d enumerators, expected %d" % (len(info["enum"]), extract_c08.EXPECT_STATUS_COUNT))
     if len(info["table"]) != extract_c08.EXPECT_PY_BRANCHES or info["problems"]:
         c.corr_break("Simulation.integrate dispatch: %d branches, irregularities %s" % (len(info["table"]), info["problems"]))
+    # JANUS: before /repo 5e0351b part2 never wrote dt_last_done (model variant `stepJanus`), since then it does (`stepOnce`): both variants
+    # are modelled and proved fixed-step (c08_step_kinds_fixed); the tie runs the one the source has
+    if info["kinds"].get("janus", (None,))[0] in ("janus", "once"):
+        KIND["janus"] = info["kinds"]["janus"][0]
+    c.cov["janus_writes_dt_last_done"] = KIND["janus"] == "once"
     for k, (kind, sig) in info["kinds"].items():
         if kind is not None and kind != KIND[k]:
             c.corr_break("time bookkeeping of integrator %s is '%s' in the source, model runs it as '%s'" % (k, kind, KIND[k]), list(sig))
